@@ -73,8 +73,19 @@ def generate(tier, rng):
                                 e.extra['pt_expect'][v.ident] = v.ident.lower() if second_strum else v.ident
                     # always-derived traits
                     asserts.append('fn _needs_std<X: Clone + Copy + core::fmt::Debug + PartialEq + Eq>() {} fn _chk_std() { _needs_std::<$D>(); }')
+                    # ORDER of the items: a pass-through `strum(..)` may stand before the `derive(..)` that declares the helper
+                    # attribute (the generated enum always carries its derive first), everything may come in one list
+                    order = (k // 6) % 4
+                    if order == 1:
+                        attrs = [a for a in attrs if not a.startswith('derive(')] + [a for a in attrs if a.startswith('derive(')]
+                    elif order == 2:
+                        attrs = list(reversed(attrs))
                     if attrs:
-                        e.extra['enum_attrs'] = ['#[strum_discriminants(%s)]' % a for a in attrs]
+                        if order == 3:
+                            e.extra['enum_attrs'] = ['#[strum_discriminants(%s)]' % ', '.join(attrs)]
+                        else:
+                            e.extra['enum_attrs'] = ['#[strum_discriminants(%s)]' % a for a in attrs]
+                    e.extra['shape'] += ' dorder=%d' % order
                     e.extra['disc_asserts'] = asserts
                     e.extra['evalflag'] = 1 if all(v.kind == 'unit' for v in e.variants) else (2 if repr_ else 0)
                     e.extra['shape'] += ' disc_mode=%d' % mode
